@@ -1291,6 +1291,25 @@ func Jobs(prop, tier string) []*Job {
 			}
 		}
 	}
+	// thorough tier: every scripted scenario that runs without PreVote is run with PreVote as well
+	// (elections then go through the pre-election path)
+	if tier == "thorough" && prop != "C19" {
+		n0 := len(jobs)
+		for _, j := range jobs[:n0] {
+			if j.Strategy != "ddfs" || j.Sc.cfg(0).PreVote || j.Sc.NoClone {
+				continue
+			}
+			sc := *j.Sc
+			sc.Cfg = append([]NodeCfg(nil), j.Sc.Cfg...)
+			for k := range sc.Cfg {
+				sc.Cfg[k].PreVote = true
+			}
+			sc.Name = j.Sc.Name + "+prevote"
+			nj := *j
+			nj.Sc, nj.Name = &sc, sc.Name
+			jobs = append(jobs, &nj)
+		}
+	}
 	for i, j := range jobs {
 		j.Index = i
 		if strings.Contains(j.Name, "candidate-crash") || strings.Contains(j.Name, "pagination") || strings.Contains(j.Name, "prevote-crash") {
